@@ -179,7 +179,68 @@ def hoist(tree: ast.Module) -> ast.Module:
     return tree
 
 
-TRANSFORMS = {"reformat": reformat, "rename_locals": rename_locals, "noop": noop, "hoist": hoist}
+def swap_if_else(tree: ast.Module) -> ast.Module:
+    """``if c: A else: B``  ->  ``if not c: B else: A`` (only plain if/else, no elif chains)."""
+    for n in ast.walk(tree):
+        if isinstance(n, ast.If) and n.orelse and not (len(n.orelse) == 1 and isinstance(n.orelse[0], ast.If)):
+            n.test = ast.UnaryOp(op=ast.Not(), operand=n.test)
+            n.body, n.orelse = n.orelse, n.body
+    return tree
+
+
+def augassign(tree: ast.Module) -> ast.Module:
+    """``x = x + e`` -> ``x += e`` is NOT behaviour preserving for arrays (in-place); the other direction is unsafe too when x is aliased.
+    Only plain local names bound to numbers are safe in general, which we cannot know: so this rewrites only `name += const` <-> `name = name + const`."""
+    class T(ast.NodeTransformer):
+        def visit_AugAssign(self, n):
+            if isinstance(n.target, ast.Name) and isinstance(n.value, ast.Constant) and isinstance(n.value.value, (int, float)):
+                return ast.copy_location(ast.Assign(targets=[ast.Name(id=n.target.id, ctx=ast.Store())],
+                                                    value=ast.BinOp(left=ast.Name(id=n.target.id, ctx=ast.Load()), op=n.op, right=n.value)), n)
+            return n
+    return T().visit(tree)
+
+
+def _pure(e: ast.expr) -> bool:
+    for x in ast.walk(e):
+        if isinstance(x, (ast.Call, ast.Yield, ast.YieldFrom, ast.Await, ast.NamedExpr, ast.Lambda, ast.ListComp, ast.GeneratorExp, ast.DictComp, ast.SetComp)):
+            return False
+    return True
+
+
+def reorder(tree: ast.Module) -> ast.Module:
+    """Swap adjacent independent simple assignments ``a = e1; b = e2`` (pure right-hand sides, no mutual use)."""
+    def names(e, ctx):
+        return {x.id for x in ast.walk(e) if isinstance(x, ast.Name) and isinstance(x.ctx, ctx)}
+
+    def ok(st):
+        return isinstance(st, ast.Assign) and len(st.targets) == 1 and isinstance(st.targets[0], ast.Name) and _pure(st.value)
+
+    def visit(body):
+        i = 0
+        while i + 1 < len(body):
+            a, b = body[i], body[i + 1]
+            if ok(a) and ok(b):
+                ta, tb = a.targets[0].id, b.targets[0].id
+                if ta != tb and ta not in names(b.value, ast.Load) and tb not in names(a.value, ast.Load):
+                    body[i], body[i + 1] = b, a
+                    i += 2
+                    continue
+            i += 1
+        for st in body:
+            for f in ("body", "orelse", "finalbody"):
+                sub = getattr(st, f, None)
+                if isinstance(sub, list) and sub and isinstance(sub[0], ast.stmt):
+                    visit(sub)
+            if isinstance(st, ast.Try):
+                for h in st.handlers:
+                    visit(h.body)
+
+    visit(tree.body)
+    return tree
+
+
+TRANSFORMS = {"reformat": reformat, "rename_locals": rename_locals, "noop": noop, "hoist": hoist, "swap_if_else": swap_if_else, "augassign": augassign,
+              "reorder": reorder}
 
 
 def overlay(root: str, name: str) -> dict[str, str]:
